@@ -27,8 +27,9 @@ Adf11Classes == {"scd", "acd", "ccd", "plt", "prb", "prc"}
 \* charge-state convention: ionisation-like classes are labelled by the *resulting* charge Z1 in the file
 ChargeCorrection(cls) == IF cls \in {"scd", "plt"} THEN -1 ELSE 0
 
-Adf11Docs == {[kind |-> "adf11", cls |-> cls, z |-> z, nd |-> nd, nt |-> nt, zmin |-> zmin, zmax |-> zmax, match |-> m] :
-                 cls \in Adf11Classes, z \in {2, 10, 18}, nd \in (IF Deep THEN {1, 2, 3, 7, 8, 9, 16, 17} ELSE {1, 3, 8, 9}), nt \in (IF Deep THEN {2, 7, 8, 9, 10, 16, 17} ELSE {2, 8, 10}), zmin \in {1, 2}, zmax \in {2, 10, 18}, m \in BOOLEAN}
+\* tail: what follows the closing "C----" line of the data: a comment section (as in open-ADAS files) or nothing at all
+Adf11Docs == {[kind |-> "adf11", cls |-> cls, z |-> z, nd |-> nd, nt |-> nt, zmin |-> zmin, zmax |-> zmax, match |-> m, tail |-> tail] :
+                 tail \in {"comments", "none"}, cls \in Adf11Classes, z \in {2, 10, 18}, nd \in (IF Deep THEN {1, 2, 3, 7, 8, 9, 16, 17} ELSE {1, 3, 8, 9}), nt \in (IF Deep THEN {2, 7, 8, 9, 10, 16, 17} ELSE {2, 8, 10}), zmin \in {1, 2}, zmax \in {2, 10, 18}, m \in BOOLEAN}
 Adf11OK(d) == d.zmin <= d.zmax /\ d.zmax <= d.z /\ (d.nd > 1 \/ d.nt > 1)
 \* parsed table of block Z1: [density index i][temperature index j] = Val(Z1, j, i)   (file order is temperature-major)
 Expected11(d) == [blocks |-> [b \in d.zmin..d.zmax |-> [charge |-> b + ChargeCorrection(d.cls), file_label |-> b]],
